@@ -22,6 +22,8 @@ time passing between them, configuration changes at any position):
 -/
 import SigModel.Model.Alert
 import SigModel.Lemmas.C20
+import SigModel.Model.AlertJob
+import SigModel.Lemmas.C20J
 import SigModel.Model.KV
 import SigModel.Lemmas.C20Kb
 import SigModel.Lemmas.C20Kc
@@ -202,6 +204,185 @@ example : -- non-vacuous: N = 2, second matched evaluation fires and is delivere
   decide
 
 end SigModel.Props.C20
+
+
+/-!
+# C20, alert state machine ACROSS JOB LIFETIMES (model: SigModel/Model/AlertJob.lean; suite "alertjob",
+harness/cmd/corr/c20_alertjob.go)
+
+An alert exists three times at run time: the object the cron job captured when it was created (create,
+restart = InitAlertingService, edit = ProcessUpdateAlertRequest), the all_alerts row, and the history /
+notification tables.  The model mirrors which copy each decision reads.  For EVERY operation sequence
+(evaluations, time, restarts, edits of window / interval, silence / unsilence requests, transport failures):
+  J1. the answers and the database never depend on WHEN jobs were re-created: restarts may be inserted or
+      removed at any position, and the fields of the captured object that are not its definition (State,
+      SilenceMinutes — stale copies) are read by nothing;
+  J2. C20.1 restated over sequences with restarts and silence changes: the state after an evaluation is the
+      window function of the last N outcomes, N = window / interval of the DEFINITION;
+  J3. an edit restarts the window with the NEW N, from any prior situation (whatever job object existed);
+  J4. C20.2 / C20.3 / C20.4 restated over such sequences (cool-down spacing, Normal only directly after Firing,
+      a Firing evaluation is notified exactly when transport, cool-down and the silence stored in the ROW allow).
+-/
+namespace SigModel.Props.C20.Job
+open SigModel.Alert hiding Op
+open SigModel.AlertJob
+
+/-- outcomes (condition matched?) of the evaluations in an operation list, NEWEST FIRST -/
+abbrev outcomes (ops : List Op) : List Bool := Lemmas.C20J.outcomes ops
+
+/-- the operation list without its restarts -/
+abbrev eraseRestarts (ops : List Op) : List Op := Lemmas.C20J.eraseRestarts ops
+
+/-- no edit of the definition among the operations -/
+def NoEdit (ops : List Op) : Prop := ∀ op ∈ ops, Lemmas.C20J.isEdit op = false
+
+instance (ops : List Op) : Decidable (NoEdit ops) := by unfold NoEdit; infer_instance
+
+/-- C20.J1 the state of an alert is a function of its DEFINITION and of the evaluation history only, not
+of when its job object was (re-)created: two operation sequences on a freshly created alert that differ
+only in their restarts (any number, at any positions — while Inactive, Pending, Firing or Normal) give the
+same answer to every evaluation (state, notification) and leave the same database behind -/
+theorem state_independent_of_job_recreation (window interval cooldown t0 : Nat) (ops ops' : List Op)
+    (h : eraseRestarts ops = eraseRestarts ops') :
+    let w := create window interval cooldown t0
+    (run w ops).2 = (run w ops').2 ∧
+    (run w ops).1.st = (run w ops').1.st ∧
+    (run w ops).1.window = (run w ops').1.window ∧ (run w ops).1.interval = (run w ops').1.interval ∧
+    (run w ops).1.silence = (run w ops').1.silence := by
+  intro w
+  have hs : Lemmas.C20J.Sync w := ⟨rfl, rfl⟩
+  obtain ⟨a1, a2⟩ := Lemmas.C20J.run_erase ops w hs
+  obtain ⟨b1, b2⟩ := Lemmas.C20J.run_erase ops' w hs
+  have e : Lemmas.C20J.eraseRestarts ops = Lemmas.C20J.eraseRestarts ops' := h
+  rw [e] at a1 a2
+  have d := Lemmas.C20J.dbEq_trans a2 (Lemmas.C20J.dbEq_symm b2)
+  exact ⟨a1.trans b1.symm, d.1, d.2.1, d.2.2.1, d.2.2.2.1⟩
+
+/-- C20.J1' … and nothing reads the stale fields of the captured object: replace, in ANY world, the State
+and SilenceMinutes the job object carries by arbitrary values — every later answer and the database are
+the same (in particular "the captured State is Firing" can never be a reason to fire) -/
+theorem job_stale_fields_unread (w : World) (staleState : AState) (staleSilence : Nat) (ops : List Op) :
+    let w' : World := { w with job := { w.job with state := staleState, silence := staleSilence } }
+    (run w ops).2 = (run w' ops).2 ∧ (run w ops).1.st = (run w' ops).1.st := by
+  intro w'
+  have d : Lemmas.C20J.DbEq w w' := ⟨rfl, rfl, rfl, rfl, rfl, rfl, rfl, rfl⟩
+  obtain ⟨h1, h2⟩ := Lemmas.C20J.dbEq_run ops d
+  exact ⟨h1, h2.1⟩
+
+example : -- non-vacuous: N = 3, restart while Firing, then not-matched, matched: Pending and NOT notified,
+          -- exactly as without the restart; the job captured at the restart did carry State = Firing
+    let w := create 3 1 0 0
+    let ops : List Op := [.eval true true, .eval true true, .eval true true, .restart, .eval false true, .eval true true]
+    (run w (ops.take 4)).1.job.state = .firing ∧
+    (run w ops).2.map (fun o => (o.state, o.notified)) =
+      [(.pending, false), (.pending, false), (.firing, true), (.normal, true), (.pending, false)] ∧
+    (run w (eraseRestarts ops)).2 = (run w ops).2 := by decide
+
+/-- C20.J2 (C20.1 over sequences with restarts): on a freshly created alert, after any sequence of
+evaluations, time steps, RESTARTS and silence / unsilence requests, the state is the window function of
+the last N outcomes, N = window / interval — Firing iff the condition held in all of the last N
+evaluations, Pending iff it held in the latest but not in all N, Normal iff it did not hold in the latest -/
+theorem state_is_window_fn_across_restarts (window interval cooldown t0 : Nat) (ops : List Op)
+    (hno : NoEdit ops) (hne : outcomes ops ≠ []) :
+    let s := (run (create window interval cooldown t0) ops).1.st.state
+    (s = .firing ↔ WindowFull (window / interval) (outcomes ops)) ∧
+    (s = .pending ↔ (outcomes ops).head? = some true ∧ ¬ WindowFull (window / interval) (outcomes ops)) ∧
+    (s = .normal ↔ (outcomes ops).head? = some false) := by
+  intro s
+  have h := Lemmas.C20J.state_after_run (create window interval cooldown t0) ops ⟨rfl, rfl⟩
+    Lemmas.C20.barrier_nil hno hne
+  have hs : s = Lemmas.C20.windowState (window / interval) (outcomes ops) := h
+  rw [hs]
+  exact Lemmas.C20.windowState_spec (window / interval) (outcomes ops) hne
+
+/-- C20.J3 an accepted edit restarts the window with the NEW definition: from ANY world (any history, any
+state, any job object), after the edit and then evaluations, time steps, restarts and silence changes, the
+state is the window function — for N = new window / new interval — of the outcomes since the edit -/
+theorem edit_restarts_window (w : World) (window interval : Nat) (ops : List Op)
+    (hacc : editAccepted window interval = true) (hno : NoEdit ops) (hne : outcomes ops ≠ []) :
+    let s := (run (step w (.edit window interval)).1 ops).1.st.state
+    (s = .firing ↔ WindowFull (window / interval) (outcomes ops)) ∧
+    (s = .pending ↔ (outcomes ops).head? = some true ∧ ¬ WindowFull (window / interval) (outcomes ops)) ∧
+    (s = .normal ↔ (outcomes ops).head? = some false) := by
+  intro s
+  have e1 : (step w (.edit window interval)).1.window = window := by simp [step, hacc]
+  have e2 : (step w (.edit window interval)).1.interval = interval := by simp [step, hacc]
+  have e3 : Lemmas.C20J.Sync (step w (.edit window interval)).1 := by
+    simp [Lemmas.C20J.Sync, step, hacc, capture]
+  have e4 : Lemmas.C20.Barrier (step w (.edit window interval)).1.st.hist := by
+    have : (step w (.edit window interval)).1.st.hist = .inactive :: w.st.hist := by
+      simp [step, hacc, configChange]
+    rw [this]; exact Lemmas.C20.barrier_inactive w.st.hist
+  have h := Lemmas.C20J.state_after_run (step w (.edit window interval)).1 ops e3 e4 hno hne
+  rw [e1, e2] at h
+  have hs : s = Lemmas.C20.windowState (window / interval) (outcomes ops) := h
+  rw [hs]
+  exact Lemmas.C20.windowState_spec (window / interval) (outcomes ops) hne
+
+example : -- non-vacuous: edit N 2 → 3 while Firing (the new job captures State = Firing): three matched evaluations are needed again
+    let w := (run (create 2 1 0 0) [.eval true true, .eval true true]).1
+    w.st.state = .firing ∧ (step w (.edit 3 1)).1.job.state = .firing ∧ editAccepted 3 1 = true ∧
+    (run (step w (.edit 3 1)).1 [.eval true true, .restart, .eval true true]).1.st.state = .pending ∧
+    (run (step w (.edit 3 1)).1 [.eval true true, .restart, .eval true true, .silence 5, .eval true true]).1.st.state = .firing ∧
+    NoEdit [.eval true true, .restart, .eval true true, .silence 5, .eval true true] := by decide
+
+/-- C20.J4a (C20.2 over such sequences): no two delivered notifications are closer than the cool-down,
+whatever restarts, edits and silence requests lie between them -/
+theorem no_two_sends_within_cooldown_across_restarts (window interval cooldown t0 : Nat) (ops : List Op) :
+    (sends (run (create window interval cooldown t0) ops).2).Pairwise
+      (fun a b => a.time + cooldown ≤ b.time) := by
+  have h := (Lemmas.C20J.spaced_run ops (create window interval cooldown t0) (by intro t ht; cases ht)).2
+  have h2 := h.filter (fun o => o.notified)
+  refine List.Pairwise.imp_of_mem ?_ h2
+  intro a b ha hb hab
+  exact hab (List.mem_filter.1 ha).2 (List.mem_filter.1 hb).2
+
+/-- C20.J4b (C20.3 over such sequences): every delivered notification is a Firing or a Normal one, the first
+one ever is Firing, and a Normal notification directly follows a Firing one — one notification per
+transition, also when the job was re-created in between -/
+theorem normal_sent_only_after_firing_across_restarts (window interval cooldown t0 : Nat) (ops : List Op) :
+    let ss := sends (run (create window interval cooldown t0) ops).2
+    (∀ o ∈ ss, o.state = .firing ∨ o.state = .normal) ∧
+    (∀ o rest, ss = o :: rest → o.state = .firing) ∧
+    (∀ pre a b post, ss = pre ++ a :: b :: post → b.state = .normal → a.state = .firing) := by
+  intro ss
+  have h : Lemmas.C20.chainOk AState.inactive ss :=
+    Lemmas.C20J.chain_run ops (create window interval cooldown t0) (by show AState.inactive ≠ AState.pending; decide)
+  refine ⟨Lemmas.C20.chain_all h, ?_, ?_⟩
+  · intro o rest he
+    rw [he] at h
+    rcases Lemmas.C20.chain_head h with h1 | h1
+    · exact h1
+    · exact absurd h1.2 (by decide)
+  · intro pre a b post he hb
+    rw [he] at h
+    rcases Lemmas.C20.chain_adjacent pre a b post h with h1 | h1
+    · rw [hb] at h1; cases h1
+    · exact h1.2
+
+/-- C20.J4c (C20.4 over such sequences): in ANY world an evaluation that ends Firing delivers its
+notification exactly when the transport works and either nothing was delivered yet or both the cool-down
+and the silence period CURRENTLY STORED IN THE ROW have passed since the last delivery -/
+theorem firing_notified_when_allowed_job (w : World) (sendOk : Bool) (o : Out)
+    (ho : (step w (.eval true sendOk)).2 = some o) (hf : o.state = .firing) :
+    o.notified = true ↔
+      sendOk = true ∧ (w.st.lastSentTime = none ∨
+        ∃ t, w.st.lastSentTime = some t ∧ t + w.cooldown ≤ w.now ∧ t + w.silence ≤ w.now) := by
+  have ho' : o = (evalStep (jobCfg w) w.st w.now true sendOk).2 := by
+    simp [step] at ho; exact ho.symm
+  subst ho'
+  exact SigModel.Props.C20.firing_notified_when_allowed (jobCfg w) w.st w.now sendOk hf
+
+example : -- non-vacuous: silence requested AFTER the job was created is honoured (it is read from the row);
+          -- the Normal notification held back by it is delivered once it is over, also across a restart; a failed
+          -- delivery leaves nothing to recover from
+    (run (create 1 1 0 0) [.eval true true, .silence 10, .tick 3, .eval false true, .restart, .tick 7, .eval false true,
+        .eval false true]).2.map (fun o => (o.state, o.notified)) =
+      [(.firing, true), (.normal, false), (.normal, true), (.normal, false)] ∧
+    (run (create 1 1 0 0) [.eval true false, .restart, .eval false true]).2.map (fun o => (o.state, o.notified)) =
+      [(.firing, false), (.normal, false)] := by decide
+
+end SigModel.Props.C20.Job
 
 
 /-!
